@@ -120,6 +120,51 @@ theorem power_decode_exact (np nd : ℕ) (hnp : np ≤ 3) (hnd : nd ≤ 255) (k 
   funext a
   exact reduced_parity _ c hc D (r a)
 
+/-- the decoder as `raid_rec*` runs it: from whatever was READ — parities `P`, data `S` — for the
+    failed columns `c` with the parity rows `r` -/
+noncomputable def decodeWith {np nd : ℕ} (A : Fin np → Fin nd → GF256) (k : ℕ) (r : Fin k → Fin np) (c : Fin k → Fin nd)
+    (P : Fin np → GF256) (S : Fin nd → GF256) : Option (Fin k → GF256) :=
+  (invert (subMat A k r c)).map fun V =>
+    (toMx k V).mulVec (fun a => P (r a) + ∑ i ∈ (Finset.univ.image c)ᶜ, A (r a) i * S i)
+
+/-- **decoding with intact parities yields the true data** (the hypothesis `hdec` of
+    `C01.fix_stripe_recovers`): if the parities used are the ones of the synced data `D` and the
+    surviving data blocks are read back unchanged, the decoder returns the lost blocks of `D`,
+    whatever is now stored in the failed columns and in the parities not used -/
+theorem decode_with_intact (np nd : ℕ) (hnp : np ≤ 6) (hnd : nd ≤ 251) (k : ℕ)
+    (r : Fin k → Fin np) (c : Fin k → Fin nd) (hr : Function.Injective r) (hc : Function.Injective c)
+    (D S : Fin nd → GF256) (P : Fin np → GF256)
+    (hP : ∀ a, P (r a) = parity (gen np nd hnp hnd) D (r a))
+    (hS : ∀ i, i ∉ Finset.univ.image c → S i = D i) :
+    decodeWith (gen np nd hnp hnd) k r c P S = some fun b => D (c b) := by
+  obtain ⟨V, hV, h⟩ := cauchy_decode_exact np nd hnp hnd k r c hr hc
+  unfold decodeWith
+  rw [hV, Option.map_some, ← h D]
+  congr 2
+  funext a
+  rw [hP a]
+  congr 1
+  apply Finset.sum_congr rfl
+  intro i hi
+  rw [hS i (Finset.mem_compl.mp hi)]
+
+theorem decode_with_intact_z (np nd : ℕ) (hnp : np ≤ 3) (hnd : nd ≤ 255) (k : ℕ)
+    (r : Fin k → Fin np) (c : Fin k → Fin nd) (hr : Function.Injective r) (hc : Function.Injective c)
+    (D S : Fin nd → GF256) (P : Fin np → GF256)
+    (hP : ∀ a, P (r a) = parity (genz np nd hnp hnd) D (r a))
+    (hS : ∀ i, i ∉ Finset.univ.image c → S i = D i) :
+    decodeWith (genz np nd hnp hnd) k r c P S = some fun b => D (c b) := by
+  obtain ⟨V, hV, h⟩ := power_decode_exact np nd hnp hnd k r c hr hc
+  unfold decodeWith
+  rw [hV, Option.map_some, ← h D]
+  congr 2
+  funext a
+  rw [hP a]
+  congr 1
+  apply Finset.sum_congr rfl
+  intro i hi
+  rw [hS i (Finset.mem_compl.mp hi)]
+
 /-- non-vacuity: the model inverts a concrete 2×2 Cauchy minor (rows 1,2; disks 0,3) -/
 example : (invert [[cauchy 1 0, cauchy 1 3], [cauchy 2 0, cauchy 2 3]]).isSome = true := by decide +kernel
 
